@@ -41,11 +41,14 @@ Definition structure_ok (separated : bool) (st : structure) : bool :=
   forallb (lookup_ok nobs) parts &&
   side.
 
+(* The property allows a request whose observable acts on a discarded idle qubit to be refused, and also to be
+   answered — with the right number (the harness's oracle verdict is part of `side`).  Any other request must be
+   answered. *)
 Definition chk_roundtrip (c : case) : bool :=
   let '(separated, ls, ps, outcome) := c in
-  let must_refuse := separated && pipeline_refuses ls ps in
+  let may_refuse := separated && pipeline_refuses ls ps in
   match outcome with
-  | Ok st => negb must_refuse && structure_ok separated st
-  | Refused => must_refuse
+  | Ok st => structure_ok separated st
+  | Refused => may_refuse
   | Crashed => false
   end.
